@@ -32,8 +32,11 @@ std::vector<VariablePtr>::iterator AnalyserExternalVariable::AnalyserExternalVar
                                                                                                           const std::string &variableName)
 {
     return std::find_if(mDependencies.begin(), mDependencies.end(), [=](const auto &v) {
-        return (owningModel(v) == model)
-               && (owningComponent(v)->name() == componentName)
+        auto component = owningComponent(v);
+
+        return (component != nullptr)
+               && (owningModel(v) == model)
+               && (component->name() == componentName)
                && (v->name() == variableName);
     });
 }
@@ -70,6 +73,7 @@ bool AnalyserExternalVariable::addDependency(const VariablePtr &variable)
     auto pimplVariable = AnalyserExternalVariable::variable();
 
     if ((pimplVariable != nullptr)
+        && (variable != nullptr)
         && (owningModel(variable) == owningModel(pimplVariable))
         && (mPimpl->findDependency(variable) == mPimpl->mDependencies.end())
         && !areEquivalentVariables(variable, pimplVariable)) {
